@@ -137,10 +137,28 @@ theorem resolveWith_not_atomic {ev : Imm → Option Int} {ins rins : Instr} (h :
     obtain ⟨v, _, rfl⟩ := h
     cases ins <;> simp [Instr.imm?] at hi <;> exact ⟨(fun _ _ _ _ _ _ e => by cases e), (fun _ _ _ _ _ e => by cases e)⟩
 
-/-- **an instruction of an expansion with a label-free immediate, read in the output**: whichever form it
-    has in the final list, the bytes at its offset execute like the instruction it denotes, with a pc step
-    of 4 (32-bit word) or 2 (compressed) -/
-theorem final_exec_free {H : Hooks} {r : AsmResult} {line : Line} {i' rins : Instr} {x : Item} {q : Int} {d : List Nat}
+/-- **the instruction at byte offset `off`, DECODED** (stronger than `ExecAt`, which only knows the effect —
+    and `Spec.exec` cannot tell ebreak / ecall / fence / writes to x0 apart).  `n = 4`: the four bytes are a
+    word that decodes to exactly `i32`.  `n = 2`: the two bytes are the halfword of a legal RVC instruction
+    `ci` that executes like `i32`, and `ci` is what the compression rule `c` (one of `criteria`, all of whose
+    predicates hold of the 32-bit original `i'` at the FINAL tables and this offset) makes of `i'`:
+    `compressedForm c i' = some cf`, `cf` resolves to `rcf`, `rcf` denotes `ci`. -/
+def DecodedAt (H : Hooks) (r : AsmResult) (line : Line) (i' : Instr) (off : Int) (n : Nat) (i32 : Instr32) : Prop :=
+  (n = 4 ∧ ∃ w, sliceAt r.bytes off 4 = leBytes 4 w ∧ decode32 w = some i32) ∨
+  (n = 2 ∧ ∃ (w : Nat) (ci : CInstr) (c : String) (preds : List Pred) (cf rcf : Instr),
+    sliceAt r.bytes off 2 = leBytes 2 w ∧ decode16 w = some ci ∧ ci.legal = true ∧ (∀ s, execC ci s = exec i32 2 s) ∧
+    (c, preds) ∈ criteria ∧ (∀ pr ∈ preds, pr.holds i' (evalAt H (chainGet r.constants r.labels) line off)) ∧
+    compressedForm c i' = some cf ∧ resolveWith (evalAt H (chainGet r.constants r.labels) line off) cf = some rcf ∧
+    denote16I rcf = some ci)
+
+theorem DecodedAt.execAt {H : Hooks} {r : AsmResult} {line : Line} {i' : Instr} {off : Int} {n : Nat} {i32 : Instr32}
+    (h : DecodedAt H r line i' off n i32) : ExecAt r off n (exec i32 n) := by
+  rcases h with ⟨rfl, w, h1, h2⟩ | ⟨rfl, w, ci, _, _, _, _, h1, h2, h3, h4, _⟩
+  · exact Or.inl ⟨rfl, w, i32, h1, h2, fun _ => rfl⟩
+  · exact Or.inr ⟨rfl, w, ci, h1, h2, h3, h4⟩
+
+/-- an instruction of an expansion with a label-free immediate, as it stands in the output: DECODED -/
+theorem final_decoded_free {H : Hooks} {r : AsmResult} {line : Line} {i' rins : Instr} {x : Item} {q : Int} {d : List Nat}
     {i32 : Instr32} (hlit : ∀ line p env, LitOK (evalAt H env line p))
     {compress : Bool} (hf : FinalOf H r.constants compress line i' x) (hpl : PlacedAt H r q x d)
     (hwk : i'.wellKinded = true) (hna : ∀ n rd rs1 rs2 aq rl, i' ≠ .a n rd rs1 rs2 aq rl)
@@ -150,7 +168,7 @@ theorem final_exec_free {H : Hooks} {r : AsmResult} {line : Line} {i' rins : Ins
     (hres : resolveWith (evalAt H (chainGet r.constants r.labels) line q) i' = some rins)
     (hden : (∀ f x, i'.fld f = some x → (lookupRegister x).isSome = true) → denote32I rins = some i32) :
     (∀ f x, i'.fld f = some x → (lookupRegister x).isSome = true) ∧
-    ∃ n : Nat, (n = 4 ∨ n = 2) ∧ x.sizeD = (n : Int) ∧ ExecAt r q n (exec i32 n) := by
+    ∃ n : Nat, (n = 4 ∨ n = 2) ∧ x.sizeD = (n : Int) ∧ DecodedAt H r line i' q n i32 := by
   obtain ⟨k, hk, hs, hnc⟩ := wellKinded_row hwk
   rcases hf with rfl | ⟨_, cf, c, preds, p, L, rfl, dd⟩
   · -- the 32-bit instruction itself
@@ -165,7 +183,7 @@ theorem final_exec_free {H : Hooks} {r : AsmResult} {line : Line} {i' rins : Ins
       exact regs_valid_of_denote (by rw [hwk']; exact hwk) ha' hal' hi f x (by rw [hfld]; exact hx)
     rw [hden hv] at hi
     cases hi
-    refine ⟨hv, 4, Or.inl rfl, by rw [instr_sizeD, hnc]; rfl, Or.inl ⟨rfl, w, i32, ?_, hdec, fun _ => rfl⟩⟩
+    refine ⟨hv, 4, Or.inl rfl, by rw [instr_sizeD, hnc]; rfl, Or.inl ⟨rfl, w, ?_, hdec⟩⟩
     obtain ⟨_, _, _, _, hlen, hsl⟩ := hpl
     rw [hdw, leBytes_length] at hsl
     rw [hsl]
@@ -183,9 +201,24 @@ theorem final_exec_free {H : Hooks} {r : AsmResult} {line : Line} {i' rins : Ins
     obtain ⟨rcf, ci, h0, hd16, hlegal, hexec⟩ := BB.Props.C04.rule_sound hmem (hlit _ _ _) hp hcf hres hd32
     obtain ⟨w1, hw1, hdec⟩ := placed_read16 (compressedForm_aj hcf) (compressedForm_sizes hcf).2 h0 hd16 hpl
     refine ⟨hv, 2, Or.inr rfl, by rw [instr_sizeD, (compressedForm_sizes hcf).2]; rfl,
-      Or.inr ⟨rfl, w1, ci, ?_, hdec, hlegal, hexec⟩⟩
+      Or.inr ⟨rfl, w1, ci, c, preds, cf, rcf, ?_, hdec, hlegal, hexec, hmem, hp, hcf, h0, hd16⟩⟩
     obtain ⟨_, _, _, _, hlen, hsl⟩ := hpl
     rw [hw1, leBytes_length] at hsl
     rw [hsl]
+
+/-- an instruction of an expansion with a label-free immediate, as it stands in the output: its effect -/
+theorem final_exec_free {H : Hooks} {r : AsmResult} {line : Line} {i' rins : Instr} {x : Item} {q : Int} {d : List Nat}
+    {i32 : Instr32} (hlit : ∀ line p env, LitOK (evalAt H env line p))
+    {compress : Bool} (hf : FinalOf H r.constants compress line i' x) (hpl : PlacedAt H r q x d)
+    (hwk : i'.wellKinded = true) (hna : ∀ n rd rs1 rs2 aq rl, i' ≠ .a n rd rs1 rs2 aq rl)
+    (hnal : ∀ n rd rs1 aq rl, i' ≠ .al n rd rs1 aq rl) (hns : ∀ n a b im, i' ≠ .s n a b im)
+    (haj : i'.isAuipcJump = false)
+    (hfree : ∀ imm, i'.imm? = some imm → ImmLabelFree H r.constants imm)
+    (hres : resolveWith (evalAt H (chainGet r.constants r.labels) line q) i' = some rins)
+    (hden : (∀ f x, i'.fld f = some x → (lookupRegister x).isSome = true) → denote32I rins = some i32) :
+    (∀ f x, i'.fld f = some x → (lookupRegister x).isSome = true) ∧
+    ∃ n : Nat, (n = 4 ∨ n = 2) ∧ x.sizeD = (n : Int) ∧ ExecAt r q n (exec i32 n) := by
+  obtain ⟨hv, n, hn, hsz, hd⟩ := final_decoded_free hlit hf hpl hwk hna hnal hns haj hfree hres hden
+  exact ⟨hv, n, hn, hsz, hd.execAt⟩
 
 end BB.Lemmas
